@@ -185,6 +185,48 @@ func init() {
 		b.b = append(b.b, sl.A...)
 		return Tuple{int64(len(sl.A)), Iface{}}
 	}
+	// sync.Map: an interface-keyed map in the side table of the cell
+	anyType := types.NewInterfaceType(nil, nil)
+	syncMap := func(p *Path, ptr Value) *Map {
+		c := ptr.(*Value)
+		if st, ok := p.side[c]; ok {
+			return st.(*Map)
+		}
+		m := newMap(anyType, anyType)
+		p.side[c] = m
+		return m
+	}
+	smt := types.NewMap(anyType, anyType)
+	models["(*sync.Map).Load"] = func(p *Path, fn *ssa.Function, a []Value) Value {
+		v, ok := p.mapLookup(syncMap(p, a[0]), a[1], smt)
+		if b, isB := ok.(bool); isB && !b {
+			return Tuple{Iface{}, false}
+		}
+		return Tuple{v, ok}
+	}
+	models["(*sync.Map).Store"] = func(p *Path, fn *ssa.Function, a []Value) Value {
+		p.mapStore(syncMap(p, a[0]), a[1], a[2])
+		return nil
+	}
+	models["(*sync.Map).LoadOrStore"] = func(p *Path, fn *ssa.Function, a []Value) Value {
+		m := syncMap(p, a[0])
+		v, ok := p.mapLookup(m, a[1], smt)
+		if p.decideVal(ok) {
+			return Tuple{v, true}
+		}
+		p.mapStore(m, a[1], a[2])
+		return Tuple{a[2], false}
+	}
+	models["(*sync.Map).Delete"] = func(p *Path, fn *ssa.Function, a []Value) Value {
+		p.mapDelete(syncMap(p, a[0]), a[1])
+		return nil
+	}
+	models["(*sync.Mutex).Lock"] = func(p *Path, fn *ssa.Function, a []Value) Value { return nil }
+	models["(*sync.Mutex).Unlock"] = func(p *Path, fn *ssa.Function, a []Value) Value { return nil }
+	models["(*sync.RWMutex).Lock"] = models["(*sync.Mutex).Lock"]
+	models["(*sync.RWMutex).Unlock"] = models["(*sync.Mutex).Lock"]
+	models["(*sync.RWMutex).RLock"] = models["(*sync.Mutex).Lock"]
+	models["(*sync.RWMutex).RUnlock"] = models["(*sync.Mutex).Lock"]
 	models["bytes.Equal"] = func(p *Path, fn *ssa.Function, a []Value) Value { return p.strEq(sliceStr(a[0]), sliceStr(a[1])) }
 	models["bytes.ToUpper"] = func(p *Path, fn *ssa.Function, a []Value) Value { return strSliceVal(p.mapCase(sliceStr(a[0]), true)) }
 	models["bytes.ToLower"] = func(p *Path, fn *ssa.Function, a []Value) Value { return strSliceVal(p.mapCase(sliceStr(a[0]), false)) }
